@@ -80,9 +80,9 @@ func dominates(a, b []string) bool {
 }
 
 type MatchResult struct {
-	Allowed     map[int]bool // template indexes the request may be dispatched to
-	NotFoundOK  bool
-	Candidates  int // templates matching the path (any method)
+	Allowed    map[int]bool // template indexes the request may be dispatched to
+	NotFoundOK bool
+	Candidates int // templates matching the path (any method)
 }
 
 // Match is the OpenAPI path-matching model of property C03. base is the normalised base path.
